@@ -183,3 +183,31 @@ def r19_4(ctx):
     ctx.check(bool(tree) or not overriders, "Ocp.to_function consults the method of every stage", detail="multi-stage OCP: the helper-state initialisers of the stages' methods (%s.to_function) never run: Ocp.to_function delegates to the master's plain DirectMethod only" % "/".join(overriders),
               expected="a walk over iter_stages(include_self=True) letting every stage's method contribute its hidden arguments", found="self._method.to_function(self, ..) only", fi=g,
               sample={"overriders": overriders})
+
+
+OPTI_WRITERS = ("set_value", "set_initial", "subject_to", "minimize", "add_objective", "clear_objective")
+
+
+@rule("R19.5", min_instances=2, desc="building the function changes nothing: no function reachable from a to_function writes parameter values, guesses, constraints or the objective of the live problem (arguments not listed keep their CURRENT values)")
+def r19_5(ctx):
+    P = ctx.prog
+    roots = []
+    for cname in P.subclasses("DirectMethod"):
+        if "to_function" in P.cls(cname).methods:
+            roots.append((cname, P.own_method(cname, "to_function")))
+    roots.append(("Ocp", P.own_method("Ocp", "to_function")))
+    for cname, root in roots:
+        concrete = cname if cname != "Ocp" else None
+        seen, _ = P.reachable([root], concrete=concrete, max_depth=4, stop=lambda f: f.cls is None and f.module.relpath.endswith("casadi_helpers.py"))
+        writers = []
+        for g in seen.values():
+            if g.name in ("set_parameter", "set_parameters", "apply_initial") and g is not root:
+                writers.append((g, "%s (re-applies the stored tables)" % g.qualname))
+                continue
+            for c in walk_no_nested(g.node):
+                if isinstance(c, ast.Call) and isinstance(c.func, ast.Attribute) and c.func.attr in OPTI_WRITERS:
+                    recv = ast.unparse(c.func.value)
+                    if recv in ("opti", "self.opti", "master.opti", "Opti", "stage.master._method.opti") or recv.endswith(".opti"):
+                        writers.append((g, "%s: %s" % (g.qualname, ast.unparse(c)[:60])))
+        ctx.check(not writers, "%s.to_function only reads the transcribed problem" % cname, detail="values set after transcription (set_value / set_initial) are overwritten while the function is built: unlisted arguments do not keep their current values",
+                  expected="no write to the live Opti problem on any path from to_function", found="; ".join(w for _, w in writers[:3]), fi=root, sample={"reachable": len(seen)})
